@@ -132,6 +132,12 @@ func (w *world) key() string {
 type viol struct{ sig, detail string }
 
 func check(x sched.Exec, w *world, c Case) (vs []viol, outcome string) {
+	if strings.Contains(x.Panic, "metadata-replicas-disagree-under-batching") {
+		return []viol{{"metadata-replicas-disagree-under-batching", x.Panic}}, "abnormal"
+	}
+	if w.c.Divergence != "" {
+		return []viol{{"metadata-replicas-disagree-under-batching", w.c.Divergence}}, "abnormal"
+	}
 	if x.Deadlock || x.Livelock || x.Panic != "" || x.Diverged != "" {
 		return []viol{{"execution-abnormal", fmt.Sprintf("deadlock=%v livelock=%v panic=%s diverged=%s", x.Deadlock, x.Livelock, x.Panic, x.Diverged)}}, "abnormal"
 	}
